@@ -73,14 +73,58 @@ RoundOut run_round(vrf::Round& R, const Program& P, bool exclusive_contract, boo
     if (rendezvous) {
         // two readers must be able to be inside together (shared-capable mutex, no writer around)
         if constexpr (FAM != F_GUARDED && FAM != F_GUARDED_OPT) {
+            // every shared acquisition form must let two readers in together; the forms of the two readers are taken from the
+            // (two-operation) program: LOCK_SH, CONST_LOCK, TRY_SH, TRY_SH_FOR/UNTIL, READ, READ_RET
             for (int t = 0; t < 2; t++) {
                 R.spawn([&, t] {
-                    (void)t;
-                    auto h = w->lock_shared();
-                    Win win(*h, false);
-                    rv_inside.fetch_add(1, std::memory_order_relaxed);
-                    vrf::spin_until([&] { return rv_inside.load(std::memory_order_relaxed) >= 2; });
-                    h->check("rendezvous");
+                    int form = P.scripts[static_cast<size_t>(t)][0].op;
+                    auto inside = [&](const Cell& c) {
+                        Win win(c, false);
+                        rv_inside.fetch_add(1, std::memory_order_relaxed);
+                        vrf::spin_until([&] { return rv_inside.load(std::memory_order_relaxed) >= 2; });
+                        c.check("rendezvous");
+                    };
+                    auto with_handle = [&](auto&& h) {
+                        if (!h) vrf::violation("oracle:reader_blocked_merely_by_another_reader", std::string("{\"form\":\"") + OPN[form] + "\"}");
+                        inside(*h);
+                    };
+                    auto dur = std::chrono::milliseconds(50);
+                    (void)dur;
+                    if constexpr (FAM == F_ORDERED) {
+                        if (form == READ) {
+                            w->read([&](const Cell& c) { inside(c); });
+                            return;
+                        }
+                        if (form == READ_RET) {
+                            (void)w->read([&](const Cell& c) {
+                                inside(c);
+                                return 1;
+                            });
+                            return;
+                        }
+                    }
+                    if constexpr (FAM == F_SHARED || FAM == F_SHARED_OPT) {
+                        if (form == CONST_LOCK) {
+                            with_handle(static_cast<const W&>(*w).lock());
+                            return;
+                        }
+                    }
+                    if (form == TRY_SH) {
+                        // the other reader may still be inside its own (blocking) acquisition only if a writer were around: none is
+                        with_handle(w->try_lock_shared());
+                        return;
+                    }
+                    if constexpr (MTraits<M>::timed) {
+                        if (form == TRY_SH_FOR) {
+                            with_handle(w->try_lock_shared_for(dur));
+                            return;
+                        }
+                        if (form == TRY_SH_UNTIL) {
+                            with_handle(w->try_lock_shared_until(std::chrono::steady_clock::now() + dur));
+                            return;
+                        }
+                    }
+                    with_handle(w->lock_shared());
                 });
             }
         }
